@@ -84,6 +84,7 @@ def middles(c, v, mech):
         ('twice', [close(0), conn(v, offer=0), close(1)], {}),
         ('twice-fatal-second', [close(0), conn(v, offer=0), close(1, 1)], {}),
         ('twice-abrupt-server-second', [close(0), conn(v, offer=0), close(1, 2)], {}),
+        ('ticketconn-abrupt-then-sid', [close(0), cfg(c, maxage=14400), conn(v, offer=0), close(1, 2), tick(life_q + 4)], {}),
     ]
     return m
 
@@ -131,7 +132,7 @@ def scenarios(thorough=False):
     for v in (3, 4):
         c = base_cfg(v, 'ticket')
         c['reqcert'] = False
-        for bit in (range(8 * 400) if thorough else range(0, 8 * 400, 197)):
+        for bit in (range(8 * 200) if thorough else range(0, 8 * 200, 97)):
             evs = [conn(v, ccert=0), close(0),
                    {'e': 'tamper', 'ci': 0, 'which': 1 if v == 4 else 0, 'bit': bit, 'strict': True},
                    conn(v, offer=0, ccert=0)]
